@@ -3,6 +3,7 @@ package harness
 // C12 — discriminators pick the same body type both ways; unknown ones are errors.
 
 import (
+	"bytes"
 	"fmt"
 	"strconv"
 	"testing"
@@ -189,6 +190,33 @@ func TestC12(t *testing.T) {
 				}
 			}
 		}
+		// text keys: one character of a registered key replaced by a sign, blank or other number-syntax character
+		for ti, tb := range TableList {
+			if !MyShare(ti) || tb.KeyType != "text" {
+				continue
+			}
+			holder := holderOf(tb)
+			hts := Types[holder]
+			df := hts.Fields[hts.FieldIndex(hts.Fields[hts.DynIndex()].Disc)]
+			someType := tb.TypeFor(tb.Order[0])
+			for ki, key := range tb.Order {
+				for pos := 0; pos < len(key); pos++ {
+					for _, ch := range []byte{'+', '-', ' ', '.', 'e', 'x', '_', '\t', 0} {
+						b := []byte(key)
+						b[pos] = ch
+						k2 := string(stripPadSide(b, byte(df.Pad), df.Left))
+						if tb.TypeFor(k2) != "" {
+							continue
+						}
+						for _, dir := range []string{"dec", "enc-absent"} {
+							c := &CaseC12{Table: tb.QName, Holder: holder, Key: k2, Dir: dir, V: holderWithKey(seed+ki, tb, k2, dir == "dec", someType)}
+							c12Record(c, "registered-key-with-one-syntax-character")
+							Direct(t, "C12", "c12", fmt.Sprintf("syntax/%s/%q/%s", tb.QName, k2, dir), c, oracleC12)
+						}
+					}
+				}
+			}
+		}
 		Col.MarkExhaustive("all 226 registered keys of the 18 pinned tables x {decode, encode-with-absent-part, round trip}")
 	})
 	t.Run("enumerated-keyspace", func(t *testing.T) {
@@ -267,6 +295,127 @@ func TestC12(t *testing.T) {
 				c12Record(c, "generated-unregistered")
 				return c
 			}, oracleC12)
+		})
+	}
+	c12History(t)
+}
+
+// ---- one receiver, several decodes: the type chosen must depend on the key on the wire only ----------------
+
+type C12Step struct {
+	Key string `json:"key"`
+	Cut int    `json:"cut"` // -1: the whole message; otherwise only its first Cut bytes are offered
+	V   *Value `json:"v"`
+}
+
+type CaseC12Hist struct {
+	Table  string    `json:"table"`
+	Holder string    `json:"holder"`
+	Steps  []C12Step `json:"steps"`
+}
+
+func oracleC12Hist(c *CaseC12Hist) *Failure {
+	tb := Tables[c.Table]
+	ts := Types[c.Holder]
+	di := ts.DynIndex()
+	obj := regByName[c.Holder].New()
+	sig := "C12/" + c.Table
+	for i, st := range c.Steps {
+		w := Render(st.V, nil).Bytes
+		full := st.Cut < 0 || st.Cut >= len(w)
+		if !full {
+			w = w[:st.Cut]
+		}
+		buf := bytes.NewBuffer(append([]byte{}, w...))
+		err, pan, _ := safely(func() error { return DecodeAny(obj, buf) })
+		if pan != nil {
+			return failf(sig+"/history-panic", "step %d (key %q) on a used receiver: Decode panicked: %v", i, st.Key, pan)
+		}
+		want := tb.TypeFor(st.Key)
+		if err != nil {
+			if full && want != "" {
+				return failf(sig+"/history-registered-rejected", "step %d: complete message with registered key %q rejected on a used receiver: %v", i, st.Key, err)
+			}
+			continue
+		}
+		if want == "" {
+			return failf(sig+"/history-unregistered-accepted", "step %d: unregistered key %q decoded successfully into a receiver used before (steps so far: %s)", i, st.Key, stepKeys(c.Steps[:i+1]))
+		}
+		got, cerr := FromStruct(obj, c.Holder)
+		if cerr != nil {
+			return failf(sig+"/history-wrong-type", "step %d (key %q): %v", i, st.Key, cerr)
+		}
+		if got.F[di].O == nil || got.F[di].O.Type != want {
+			gt := "<nil>"
+			if got.F[di].O != nil {
+				gt = got.F[di].O.Type
+			}
+			return failf(sig+"/history-wrong-type", "step %d: key %q decoded into a used receiver built %s, pinned type is %s (steps so far: %s)", i, st.Key, gt, want, stepKeys(c.Steps[:i+1]))
+		}
+	}
+	return nil
+}
+
+func stepKeys(s []C12Step) string {
+	out := ""
+	for _, st := range s {
+		out += fmt.Sprintf("%q/cut=%d ", st.Key, st.Cut)
+	}
+	return out
+}
+
+func init() { registerReplay("c12hist", oracleC12Hist) }
+
+func c12History(t *testing.T) {
+	for ti, tb := range TableList {
+		if !MyShare(ti) && EnvNShards() <= len(TableList) {
+			continue
+		}
+		tb := tb
+		t.Run("receiver-history/"+tb.QName, func(t *testing.T) {
+			holder := holderOf(tb)
+			ts := Types[holder]
+			df := &ts.Fields[ts.FieldIndex(ts.Fields[ts.DynIndex()].Disc)]
+			CheckProp(t, "C12", "c12hist", "receiver-history/"+tb.QName, func(rt *rapid.T) *CaseC12Hist {
+				c := &CaseC12Hist{Table: tb.QName, Holder: holder}
+				g := &gen{rt: rt, feat: &Features{}, mult: 1}
+				n := rapid.IntRange(2, 4).Draw(rt, "steps")
+				prev := ""
+				for i := 0; i < n; i++ {
+					var key string
+					switch rapid.IntRange(0, 3).Draw(rt, "kk") {
+					case 0:
+						key = g.unregisteredKey("key", tb, df)
+					case 1:
+						if prev != "" {
+							key = prev
+							break
+						}
+						fallthrough
+					default:
+						key = tb.Order[rapid.IntRange(0, len(tb.Order)-1).Draw(rt, "reg")]
+					}
+					prev = key
+					pt := tb.TypeFor(key)
+					if pt == "" {
+						pt = tb.TypeFor(tb.Order[rapid.IntRange(0, len(tb.Order)-1).Draw(rt, "part")])
+					}
+					v := holderWithKeyRT(rt, tb, key, true, pt)
+					st := C12Step{Key: key, Cut: -1, V: v}
+					if rapid.IntRange(0, 3).Draw(rt, "trunc") == 0 {
+						if l := len(Render(v, nil).Bytes); l > 0 {
+							st.Cut = rapid.IntRange(0, l-1).Draw(rt, "cut")
+						}
+					}
+					c.Steps = append(c.Steps, st)
+				}
+				Col.Case(Hash64(JSONOf(c)), true, "receiver-history", "table:"+tb.QName)
+				Col.Program(holder)
+				if Col.WantSample("receiver-history") && len(JSONOf(c)) < 3000 {
+					Col.Sample("receiver-history", c)
+				}
+				return c
+			}, oracleC12Hist)
 		})
 	}
 }
